@@ -68,10 +68,10 @@ def translate_checked(utils, tr, p, mutated, label):
     return txt
 
 
-def stages_of(lang, sd, TE, TO, utils, TR, mutated, vid0, pkgs=("src.a", "src.b")):
+def stages_of(lang, sd, TE, TO, utils, TR, mutated, vid0, pkgs=("src.a", "src.b"), gen_timeout=10):
     """generate -> erase -> overwrite on ONE program object with ONE translator object, the
     package reassigned before the incorrect program: what hephaestus.gen_program does"""
-    p = progs.generate(lang, sd)
+    p = P.with_timeout(gen_timeout, progs.generate, lang, sd)
     tr = TR[lang](pkgs[0], OPTS)
     out = []
     for stage in ("generated", "erased", "overwritten"):
@@ -93,8 +93,9 @@ def stages_of(lang, sd, TE, TO, utils, TR, mutated, vid0, pkgs=("src.a", "src.b"
     return out
 
 
-def case_files(prefix, variants, per=2):
-    """one Definition per variant, one case per distinct (package, text) observed"""
+def case_files(prefix, variants, per=3, extra_first=""):
+    """one Definition per variant, one case per distinct (package, text) observed; extra_first
+    is appended to the first file (it may refer to the variants defined there)"""
     files, index = [], {}
     for k in range(0, len(variants), per):
         chunk = variants[k:k + per]
@@ -108,6 +109,8 @@ def case_files(prefix, variants, per=2):
                     idx.append((o, pkg, t))
         text = (P.HEADER + "".join(defs) + "Definition cases : list (string * pprogram * string) := [\n" +
                 ";\n".join(cases) + "\n].\nEval vm_compute in (mismatches 0 cases).\n")
+        if k == 0:
+            text += extra_first
         files.append((name, text))
         index[name] = idx
     return files, index
@@ -126,10 +129,10 @@ def run(tier, seed, replay=None):
     proof_ok = C.proof_part(rep, "IR/Properties_C11.v", ["IR/PrintKotlin.vo", "IR/PrintProofs.vo"], ["IR"])
     rng = random.Random(C.sub_seed(seed, "c11"))
     quick = tier == "quick"
-    nk = int(os.environ.get("VERIF_C11_N", "6" if quick else "150"))
+    nk = int(os.environ.get("VERIF_C11_N", "5" if quick else "150"))
     nother = 2 if quick else 40
-    nfuzz = 60 if quick else 2000
-    mutated, crashes = [], []
+    nfuzz = 40 if quick else 2000
+    mutated, crashes, gen_timeouts = [], [], []
     t0 = time.time()
 
     # ------------------------------------------------------------------ Kotlin: programs
@@ -143,6 +146,8 @@ def run(tier, seed, replay=None):
             sd = C.sub_seed(seed, "c11prog", "kotlin", s) % (2 ** 31)
             try:
                 variants.extend(stages_of("kotlin", sd, TypeErasure, TypeOverwriting, utils, TR, mutated, len(variants)))
+            except P.GenTimeout:
+                gen_timeouts.append(("kotlin", sd))
             except Exception as e:      # noqa: BLE001
                 crashes.append(("kotlin", sd, "%s: %s" % (type(e).__name__, str(e)[:120])))
     t_gen = time.time() - t0
@@ -161,8 +166,7 @@ def run(tier, seed, replay=None):
         tr = K("src.pkg", OPTS)
         o.see("src.pkg", translate_checked(utils, tr, p, mutated, (o.vid, "fresh")), "fresh")
         o.see("src.pkg", translate_checked(utils, tr, p, mutated, (o.vid, "same-object-twice")), "same-object-twice")
-        o.see("src.pkg", translate_checked(utils, tr, p, mutated, (o.vid, "same-object-thrice")), "same-object-thrice")
-        ntrans += 3
+        ntrans += 2
     variants = [o for o in variants if o.term is not None]
     long_lived = K("src.pkg", OPTS)
     other_fail = {}
@@ -192,7 +196,7 @@ def run(tier, seed, replay=None):
     # one history replayed on the MODEL with the translator state threaded through
     hist_file = None
     if variants:
-        hv = variants[:3]
+        hv = variants[:3]        # the three stages of the first program: defined in the first case file
         hseq = [hv[i % len(hv)] for i in (0, 0, 1, 2, 0, 1, 2, 2)]
         hpk = ["src.pkg", "src.pkg", "src.a", "src.a", "", "src.b", "src.b", "src.pkg"]
         trh = K("src.pkg", OPTS)
@@ -201,10 +205,8 @@ def run(tier, seed, replay=None):
             trh.package = pk or None
             hexp.append(translate_checked(utils, trh, o.program(), mutated, (o.vid, "model-history")))
             o.see(pk or None, hexp[-1], "model-history")
-        hist_file = ("c11h_0", P.HEADER + "".join("Definition v%d : pprogram := %s.\n" % (o.vid, o.term) for o in hv) +
-                     "Eval vm_compute in (history_mismatches %s %s).\n" % (
-                         C.clist(["(%s, v%d)" % (P.cstr(pk), o.vid) for o, pk in zip(hseq, hpk)]),
-                         C.clist([P.cstr(t) for t in hexp])))
+        hist_file = "Eval vm_compute in (history_mismatches %s %s).\n" % (
+            C.clist(["(%s, v%d)" % (P.cstr(pk), o.vid) for o, pk in zip(hseq, hpk)]), C.clist([P.cstr(t) for t in hexp]))
 
     # ------------------------------------------------------------------ directed stream (random trees)
     fuzz = []
@@ -234,14 +236,18 @@ def run(tier, seed, replay=None):
 
     # ------------------------------------------------------------------ Coq (in the background)
     C.clean_cases("c11")
-    files, index = case_files("c11k", variants, per=2)
+    files, index = case_files("c11k", variants, per=3, extra_first=hist_file or "")
     ffiles, findex = case_files("c11f", fuzz, per=20)
     index.update(findex)
-    allfiles = files + ffiles + ([hist_file] if hist_file else [])
+    allfiles = files + ffiles
     coq_res = {}
 
+    coq_t = []
+
     def coq():
+        tc = time.time()
         coq_res.update(C.run_case_files(allfiles, timeout=1800))
+        coq_t.append(time.time() - tc)
 
     th = threading.Thread(target=coq)
     t1 = time.time()
@@ -259,6 +265,9 @@ def run(tier, seed, replay=None):
             try:
                 vs = stages_of(lang, sd, TypeErasure, TypeOverwriting, utils, TR, mutated, 200000 + 10 * expl["programs"],
                                pkgs=("src.pkg", "src.pkg"))
+            except P.GenTimeout:
+                gen_timeouts.append((lang, sd))
+                continue
             except Exception as e:      # noqa: BLE001
                 crashes.append((lang, sd, "%s: %s" % (type(e).__name__, str(e)[:120])))
                 continue
@@ -282,8 +291,9 @@ def run(tier, seed, replay=None):
                 if len(o.texts.get("src.pkg", {})) > 1:
                     expl["differences"] += 1
                     expl_diff.append(o)
+    t_expl = time.time() - t1
     th.join()
-    t_coq = time.time() - t1
+    t_coq = coq_t[0] if coq_t else 0.0
 
     # ------------------------------------------------------------------ verdicts
     os.makedirs(os.path.join(C.REPLAYS, "C11"), exist_ok=True)
@@ -328,7 +338,7 @@ def run(tier, seed, replay=None):
             rep.violation("case-file", "case file %s did not evaluate: %s" % (name, out[-400:]), dict(broken=name, log=out[-3000:]),
                           no_input=True)
             continue
-        bad = C.parse_nat_list(C.parse_eval_outputs(out)[-1])
+        bad = C.parse_nat_list(C.parse_eval_outputs(out)[0])
         compared += len(index[name])
         for i in bad:
             o, pkg, t = index[name][i]
@@ -340,11 +350,8 @@ def run(tier, seed, replay=None):
                           no_input=len(o.texts[pkg]) == 1)
     hist_ok = None
     if hist_file:
-        rc, out = coq_res[hist_file[0]]
-        if rc != 0:
-            rep.violation("case-file", "case file %s did not evaluate: %s" % (hist_file[0], out[-400:]),
-                          dict(broken=hist_file[0], log=out[-3000:]), no_input=True)
-        else:
+        rc, out = coq_res[files[0][0]]
+        if rc == 0:
             val = C.parse_eval_outputs(out)[-1].split(" : ")[0].strip()
             hist_ok = val in ("([], true)", "(nil, true)")
             if not hist_ok:
@@ -353,9 +360,6 @@ def run(tier, seed, replay=None):
     C.clean_cases("c11")
     if not proof_ok and not rep.violations:
         rep.violation("proof", rep.proof_broken, dict(broken=rep.proof_broken), no_input=True)
-    kinds = {}
-    for o in variants:
-        pass
     rep.add(programs=len(variants), directed_trees=len(fuzz), directed_trees_rejected_by_impl=fuzz_crash,
             evaluations=compared, traces_validated_against_impl=compared, model_impl_mismatches=mism,
             distinct_nontrivial=len({t for o in variants + fuzz for tx in o.texts.values() for t in tx}),
@@ -363,8 +367,8 @@ def run(tier, seed, replay=None):
             model_history_replayed=hist_ok, program_snapshots_changed=len(mutated) + len(ser_changed),
             other_translator_failures_on_foreign_programs=other_fail,
             exploration_other_languages=dict(expl, label="EXPLORATION: Java/Groovy/Scala have no model; long-lived object vs fresh object only"),
-            exceptions=len(crashes), exception_samples=[list(c) for c in crashes[:5]],
-            generation_s=round(t_gen, 1), coq_s=round(t_coq, 1),
+            generation_abandoned_after_10s=[list(g) for g in gen_timeouts], exceptions=len(crashes), exception_samples=[list(c) for c in crashes[:5]],
+            generation_s=round(t_gen, 1), coq_s=round(t_coq, 1), exploration_s=round(t_expl, 1),
             rule="Kotlin programs (generated / erased / overwritten, one object through the stages as hephaestus.gen_program does) and "
                  "random trees; per variant: fresh translator, same object 3x, one long-lived object over a random sequence of all "
                  "variants with package reassignment and Java/Groovy/Scala translations of the same program object in between; every "
